@@ -223,6 +223,13 @@ def run_task(t):
                 process_diff_flags(ns)
             elif mode == 'cfg':
                 N.set_notebook_diff_ignores(t['mapping'])
+            elif mode == 'api+cfg':
+                # the order the server extension uses: the boolean selection first, then an Ignore mapping (key lists)
+                first = set(t['first'])
+                N.set_notebook_diff_targets(sources='sources' not in first, outputs='outputs' not in first,
+                                            attachments='attachments' not in first, metadata='metadata' not in first,
+                                            identifier='id' not in first, details='details' not in first)
+                N.set_notebook_diff_ignores(t['mapping'])
             a, b = as_nb(t['a']), as_nb(t['b'])
             d = N.diff_notebooks(a, b)
             dj = clean(d)
